@@ -68,8 +68,15 @@ def main():
         "metrics": {},
     }
     harness_errors = []
+    deadline = t0 + float(os.environ.get("VERIF_SHARD_TIMEOUT", 1500 if tier == "quick" else 6 * 3600))
     for i, (p, out, log) in enumerate(procs):
-        rc = p.wait()
+        try:
+            rc = p.wait(timeout=max(1.0, deadline - time.time()))
+        except subprocess.TimeoutExpired:
+            p.kill()
+            rc = p.wait()
+            with open(out, "w") as f:
+                json.dump({"harness_error": "shard timed out (inconclusive, not a violation)"}, f)
         log.close()
         try:
             with open(out) as f:
@@ -123,12 +130,13 @@ def main():
         else:
             new_violations.append((bucket, v))
 
-    os.makedirs(os.path.join(VERIF, "replays"), exist_ok=True)
+    replay_dir = os.environ.get("VERIF_REPLAY_DIR") or os.path.join(VERIF, "replays")
+    os.makedirs(replay_dir, exist_ok=True)
     lines = []
     for bucket, v in new_violations:
         name = f"{pid}_{common.case_hash({'b': bucket})}.json"
-        rel = os.path.join("replays", name)
-        with open(os.path.join(VERIF, rel), "w") as f:
+        rel = os.path.join("replays", name) if not os.environ.get("VERIF_REPLAY_DIR") else os.path.join(replay_dir, name)
+        with open(os.path.join(replay_dir, name), "w") as f:
             json.dump({"property": pid, "bucket": bucket, "msg": v["msg"], "case": v["case"]}, f, indent=1, default=common._json_default)
         lines.append(f"VIOLATION property={pid} replay={rel}")
         print(f"  bucket={bucket} count={v['count']}: {v['msg'][:400]}")
